@@ -228,7 +228,90 @@ pub fn run(args: &Args) {
             let again = rt.open_table(T0).map(|_| "served".to_string()).unwrap_or_else(|e| format!("err:{}", err_tag(e)));
             format!("{after}/{again}")
         });
+        // --- a reader's backend call in flight while the Database is dropped (forced schedules):
+        // the reader is parked between the latch test and the backend call, at each of its backend
+        // reads, while another thread drops the Database
+        close_race(&mut out, &clean, &cfg, args.thorough);
         out.end_case(true);
     }
     out.finish(&args.summary, &[]);
+}
+
+/// Forced schedules for "never touches the backend after calling close()": thread T1 reads a
+/// table through a read transaction (cache 0, so every page is fetched from the backend) and is
+/// parked at its n-th `backend.read` pause point - after the closed-latch test, before the call -
+/// while T2 drops the Database. Whatever the order the two threads are then released in, the
+/// backend must see no call after its close().
+fn close_race(out: &mut Out, clean: &[u8], cfg: &Cfg, thorough: bool) {
+    use std::time::Duration;
+    let cfg0 = Cfg { page: cfg.page, region: cfg.region, cache: 0 };
+    // number of backend reads a full table scan makes
+    let total = {
+        let ctl = crate::sched::Ctl::new();
+        let c2 = ctl.clone();
+        let b = new_backend(clean);
+        let db = open_db(b.clone(), &cfg0).unwrap();
+        let rt = db.begin_read().unwrap();
+        redb::verif::verif_set_pause_hook(Some(Arc::new(move |p| c2.hook(p))));
+        let n = std::thread::scope(|s| {
+            std::thread::Builder::new().name("T1".into()).spawn_scoped(s, || { let _ = read_all(&rt); }).unwrap().join().ok();
+            ctl.st.lock().unwrap().points_of_first.iter().filter(|p| *p == "backend.read").count()
+        });
+        redb::verif::verif_set_pause_hook(None);
+        drop(rt);
+        drop(db);
+        n
+    };
+    let stride = if thorough { 1 } else { (total / 12).max(1) };
+    let mut k = 1;
+    while k <= total {
+        let ctl = crate::sched::Ctl::new();
+        ctl.st.lock().unwrap().plan = Some(("T1".into(), "backend.read".into(), k));
+        let c2 = ctl.clone();
+        let b = new_backend(clean);
+        let db = open_db(b.clone(), &cfg0).unwrap();
+        let rt = db.begin_read().unwrap();
+        redb::verif::verif_set_pause_hook(Some(Arc::new(move |p| c2.hook(p))));
+        let name = format!("close-race-read{k}of{total}");
+        let (res, blocked) = std::thread::scope(|s| {
+            let done1 = Arc::new(std::sync::atomic::AtomicBool::new(false));
+            let d1 = done1.clone();
+            let rt = &rt;
+            let h1 = std::thread::Builder::new().name("T1".into()).spawn_scoped(s, move || {
+                let r = catch_unwind(AssertUnwindSafe(|| read_all(rt).map(|m| m.digest())));
+                d1.store(true, Ordering::SeqCst);
+                r
+            }).unwrap();
+            let parked = ctl.wait_parked_or(&|| done1.load(Ordering::SeqCst), Duration::from_secs(2));
+            let done2 = Arc::new(std::sync::atomic::AtomicBool::new(false));
+            let d2 = done2.clone();
+            let h2 = std::thread::Builder::new().name("T2".into()).spawn_scoped(s, move || {
+                drop(db);
+                d2.store(true, Ordering::SeqCst);
+            }).unwrap();
+            let deadline = std::time::Instant::now() + Duration::from_millis(150);
+            while parked && !done2.load(Ordering::SeqCst) && std::time::Instant::now() < deadline {
+                std::thread::sleep(Duration::from_millis(1));
+            }
+            let blocked = parked && !done2.load(Ordering::SeqCst);
+            ctl.release();
+            let r1 = h1.join();
+            let _ = h2.join();
+            let res = match r1 {
+                Ok(Ok(Ok(d))) => format!("served:{d}"),
+                Ok(Ok(Err(e))) => format!("err:{}", e.split(['(', ' ', '{']).next().unwrap_or("")),
+                _ => "panic".to_string(),
+            };
+            (format!("{res}:parked={}", u8::from(parked)), blocked)
+        });
+        redb::verif::verif_set_pause_hook(None);
+        drop(rt);
+        out.line(&format!("bk scenario {name} => {res}:close-waited={}", u8::from(blocked)));
+        if res.starts_with("panic") {
+            out.oracle_fail(format!("contract-panic|{name}: panic in a reader racing with the close"));
+        }
+        out.count("close_race_schedules");
+        finish_scenario(out, &name, &b, true, false);
+        k += stride;
+    }
 }
